@@ -60,3 +60,11 @@ package rbt
 //@   ensures noop: h == 0 || h > old(len(db.stages)) ==> len(db.stages) == old(len(db.stages))
 //@   ensures popped: h != 0 && h <= old(len(db.stages)) ==> h == old(len(db.stages)) && len(db.stages) == h - 1
 //@   at call(OnMemChange) assert clean: db.dirty == old(db.dirty)
+
+// Checkpoint records the position it hands out (see the radix tree's contract: a value logged before the latest
+// checkpoint is never overwritten in place; setValue's use of the record is the same two-line test and is not under
+// contract here - the in-place path has no result to hang the clause on).
+//@ func (*RBT) Checkpoint
+//@   prop C07 C08
+//@   opaque-callee Checkpoint
+//@   ensures recorded: result != nil && db.lastCheckpoint != nil && db.lastCheckpoint != result && db.lastCheckpoint.blocks == result.blocks && db.lastCheckpoint.offsetInBlock == result.offsetInBlock
